@@ -65,7 +65,6 @@ Compute ==
               THEN (IF EntryAgrees(p, e) THEN "ok" ELSE "EntryDiffers")
               ELSE (IF SearchReaches(p, Target(p, e), RootRef(p), s) = s THEN "ok"
                     ELSE IF PlusFlagAmbiguity(p, s) THEN "PlusFlagAmbiguity"
-                    ELSE IF GeminiRedirectCut(p, Target(p, e), RootRef(p), s) THEN "GeminiRedirectCut"
                     ELSE IF SearchCapturedBy(p, Target(p, e), RootRef(p), s) # "none"
                          THEN "SearchCapturedBy_" \o SearchCapturedBy(p, Target(p, e), RootRef(p), s)
                     ELSE "SearchDiffers")
@@ -76,7 +75,7 @@ EntriesAgree == res # "EntryDiffers"
 SearchesArrive == res # "SearchDiffers"
 TreesAgree == res # "TreeDiffers"
 \* expected to be violated while the findings are open (witnesses that the deviations are reachable)
-NoNamedDeviation == res \notin {"PlusFlagAmbiguity", "SearchCapturedBy_SpartanProtocol", "GeminiRedirectCut"}
-\* only the two recorded ambiguities of the plain Gopher line may occur
-OnlyKnownCaptures == ~StartsWith(res, "SearchCapturedBy_") \/ (res = "SearchCapturedBy_SpartanProtocol" /\ p = "G")
+NoNamedDeviation == res \notin {"PlusFlagAmbiguity"}
+\* no search request is claimed by another protocol class (the Gopher+ flag ambiguity aside, which is named separately)
+OnlyKnownCaptures == ~StartsWith(res, "SearchCapturedBy_")
 =============================================================================
